@@ -140,10 +140,14 @@ def install(P):
                 rh, ra = T.head_args(norm_ty(f.ret_ty))
                 if rh != "Result" or not ra:
                     continue
-                th, _ = T.head_args(norm_ty(ra[0]))
-                wh, _ = T.head_args(ret)
-                if th != wh:
-                    continue
+                if "::__" in ret:          # serde-internal type (__Field, __Visitor): full path must match
+                    if norm_ty(ra[0]) != ret:
+                        continue
+                else:
+                    th, _ = T.head_args(norm_ty(ra[0]))
+                    wh, _ = T.head_args(ret)
+                    if th != wh:
+                        continue
             out.append(k)
         if len(out) > 1 and ret is not None:
             # same type name in several modules: prefer exact module-qualified match
@@ -363,7 +367,9 @@ def install(P):
         k, v = m.items[m.i]
         m.cur = v
         m.i += 1
-        fty = norm_ty(c.resolve(c.gen))
+        fty = norm_ty(c.gen)
+        if "::__" not in fty:
+            fty = norm_ty(c.resolve(c.gen))
         if fty in ("String", "std::string::String"):
             return Ok(Some(k))
         name = need_fn("deserialize", first_param="__D", ret=fty)
@@ -453,7 +459,10 @@ def install(P):
             if name is None:
                 raise Unsupported(f"serde: no Serialize impl in MIR for {v.ty}")
             s = Ser()
-            r = deref(P.call(ctx, name, [v0 if isinstance(v0, Ref) else Ref(Box(v)), s]))
+            r1 = v0
+            while isinstance(r1, Ref) and isinstance(r1.get(), Ref):
+                r1 = r1.get()
+            r = deref(P.call(ctx, name, [r1 if isinstance(r1, Ref) else Ref(Box(v)), s]))
             if r.variant == "Err":
                 raise SerFail(r.fields[0])
             return s.out
